@@ -21,7 +21,8 @@ pub mod sim;
 pub mod prelude {
     pub use crate::iter::{
         FromParallelIterator, IndexedParallelIterator, IntoParallelIterator, IntoParallelRefIterator,
-        IntoParallelRefMutIterator, ParallelIterator, ParallelSlice, ParallelSliceMut,
+        IntoParallelRefMutIterator, ParallelIterator, ParallelSlice, ParallelSliceExtra, ParallelSliceMut,
+        ParallelSliceMutExtra,
     };
 }
 
@@ -39,6 +40,21 @@ pub mod range {
 
 use std::cell::RefCell;
 use std::marker::PhantomData;
+
+/// Index of the calling worker in the simulated pool: all simulated tasks run on the one OS
+/// thread of the run, which reports itself as worker 0.
+pub fn current_thread_index() -> Option<usize> {
+    Some(0)
+}
+
+/// Fire-and-forget task: run at once (there is no later point at which the shim could run it).
+pub fn spawn<F>(func: F)
+where
+    F: FnOnce() + Send + 'static,
+{
+    sim::note_task();
+    func()
+}
 
 /// The simulated pool size (1 when no simulation is installed on this thread).
 pub fn current_num_threads() -> usize {
@@ -114,5 +130,43 @@ where
         let rb = b();
         let ra = a();
         (ra, rb)
+    }
+}
+
+#[cfg(test)]
+mod tests {
+    use crate::prelude::*;
+
+    /// the widened API surface under a non-trivial schedule gives the sequential results
+    #[test]
+    fn surface() {
+        let mut state = 12345u64;
+        let mut picker = move |_site: &'static str, n: u64| {
+            state = state.wrapping_mul(6364136223846793005).wrapping_add(1442695040888963407);
+            (state >> 33) % n
+        };
+        crate::sim::with_schedule(7, &mut picker, || {
+            let v: Vec<u64> = (0..1000u64).collect();
+            assert_eq!(v.par_iter().map(|x| x * 2).sum::<u64>(), 999 * 1000);
+            assert_eq!(v.par_iter().filter(|x| **x % 3 == 0).count(), 334);
+            assert_eq!((0..100usize).into_par_iter().map(|i| i * i).collect::<Vec<_>>(), (0..100usize).map(|i| i * i).collect::<Vec<_>>());
+            assert_eq!((1..=10u32).into_par_iter().reduce(|| 0, |a, b| a + b), 55);
+            assert_eq!((5..=5u64).into_par_iter().find_any(|x| *x == 5), Some(5));
+            assert_eq!((1..=1u64 << 12).into_par_iter().find_any(|x| *x == 4096), Some(4096));
+            assert!(v.par_iter().any(|x| *x == 999));
+            assert!(v.par_iter().all(|x| *x < 1000));
+            assert_eq!(v.par_iter().max(), Some(&999));
+            assert_eq!(v.par_chunks_exact(7).map(|c| c.len()).collect::<Vec<_>>().len(), 142);
+            let mut w = vec![3, 1, 2];
+            w.par_sort_unstable();
+            assert_eq!(w, vec![1, 2, 3]);
+            let parts: Vec<u64> = v.par_iter().fold(|| 0u64, |a, b| a + *b).collect();
+            assert_eq!(parts.iter().sum::<u64>(), 499500);
+            assert_eq!(v.par_iter().position_first(|x| *x == 17), Some(17));
+            let (a, b): (Vec<u64>, Vec<u64>) = v.par_iter().map(|x| (*x, x + 1)).unzip();
+            assert_eq!(a.len(), b.len());
+            assert_eq!(v.par_iter().copied().flat_map_iter(|x| [x, x]).count(), 2000);
+            assert_eq!(v.par_iter().enumerate().with_max_len(3).map(|(i, x)| i as u64 + *x).collect::<Vec<_>>()[10], 20);
+        });
     }
 }
